@@ -24,14 +24,14 @@ def failing_obligations(ctx):
         lhs, rhs = " ".join(lhs.split()), " ".join(rhs.split())
         if rhs in ("true", "false"):
             t = "Bool.eqb (%s) %s" % (lhs, rhs)
-        elif rhs.startswith("exp_skel_") or lhs.startswith("handler_order") or lhs.startswith("skel_"):
+        elif rhs.startswith("exp_") or lhs.startswith("handler_order") or lhs.startswith("skel_"):
             t = "list_str_eqb (%s) (%s)" % (lhs, rhs)
         elif re.fullmatch(r"\d+", rhs):
             t = "N.eqb (%s) %s" % (lhs, rhs)
         else:
             continue
         items.append((name, t))
-    body = ["From FwdLib Require Import Bytes Hdr.", "From G12 Require Import Tables Expected Errors Exchange ErrorsProofs.",
+    body = ["From FwdLib Require Import Bytes Hdr.", "From G12 Require Import Tables Expected Errors Exchange ErrorsProofs Indexing.",
             "Open Scope N_scope."]
     body.append("Definition obl : list bool := [%s]." % "; ".join(t for _, t in items))
     body.append("Definition R := Eval vm_compute in obl.\nPrint R.")
